@@ -109,6 +109,40 @@ func (c07) Run(c *Ctx, csAny any) Outcome {
 		out.Viol = violf("C07:seed-does-not-reproduce", "with the printed -rapid.seed=%d Check reports %q after %d tests (want a failure after 0 tests)", r1.Rep.Seed, r3.Rep.Kind, r3.Rep.After)
 		return out
 	}
+	if cs.Cfg.Seed%3 == 0 {
+		// a failure that comes from a fail file: if its report names a seed as well, that seed has to reproduce the
+		// reported failure like any other printed seed. The file's header is no evidence: the file may have been
+		// copied, edited, or saved before the code changed (here: same words, another seed field).
+		cfg4 := cs.Cfg
+		cfg4.NoFailFile, cfg4.ShrinkNS = false, 0
+		runProg(cfg4, cs.Prog)
+		if files := FailFiles(); len(files) == 1 {
+			if version, seed, words, err := ParseFailFile(files[0]); err == nil {
+				writeFailFile(files[0], version, seed+1, words, "header edited")
+				cfg5 := cs.Cfg
+				cfg5.Seed, cfg5.NoFailFile = 0, true
+				r5 := runProg(cfg5, cs.Prog)
+				out.Classes = append(out.Classes, "failure-from-a-fail-file")
+				if r5.Rep.HasSeed && (r5.Rep.Kind == "failed" || r5.Rep.Kind == "panic") && r5.Rep.FailFile != "" && len(r5.X.Log) > 0 {
+					cfg6 := cs.Cfg
+					cfg6.Seed = r5.Rep.Seed
+					_ = removeFile(files[0])
+					r6 := runProg(cfg6, cs.Prog)
+					if len(r6.X.Log) == 0 || !r6.X.Log[0].Same(r5.X.Log[0]) || r6.Rep.After != 0 || (r6.Rep.Kind != "failed" && r6.Rep.Kind != "panic") {
+						got := "<none>"
+						if len(r6.X.Log) > 0 {
+							got = r6.X.Log[0].Outcome()
+						}
+						out.Viol = violf("C07:seed-does-not-reproduce", "a failure replayed from a fail file [%s] was reported with the hint -rapid.seed=%d; with that seed the first test case is [%s] and Check reports %q after %d tests", r5.X.Log[0].Outcome(), r5.Rep.Seed, got, r6.Rep.Kind, r6.Rep.After)
+						return out
+					}
+				}
+			}
+		}
+		for _, f := range FailFiles() {
+			_ = removeFile(f)
+		}
+	}
 	return out
 }
 
